@@ -10,10 +10,13 @@ shutil.copy(os.path.join(src, 'patch.diff'), dst)
 shutil.copytree(os.path.join(src, 'demo'), os.path.join(dst, 'demo'))
 meta = json.load(open(os.path.join(src, 'meta.json')))
 meta['confirmed_by_lead'] = {
-    'suite_with_patch': '4311/4311 passed (/tmp/mutkit/build_and_test.sh in the scratch worktree)',
+    'suite_with_patch': '4311/4311 passed (tools/mutkit/build_and_test.sh in the scratch worktree)',
     'demo_with_patch': 'exit 1', 'demo_without_patch': 'exit 0',
-    'commands': ['/tmp/mutkit/confirm.sh %s' % ID, 'VERIF_REPO=/tmp/mut/%s ./check <prop>' % ID],
+    'commands': ['tools/mutkit/confirm.sh %s' % ID, 'tools/mutkit/check_mut.sh %s <prop>' % ID],
 }
 meta['detected_by'] = results
+import subprocess
+head = subprocess.run(['git', '-C', '/repo', 'rev-parse', '--short', 'HEAD'], capture_output=True, text=True).stdout.strip()
+meta['applies_to_repo_commits'] = {'newest': head, 'applies_to_head_' + head: True}
 json.dump(meta, open(os.path.join(dst, 'meta.json'), 'w'), indent=1)
 print('kept', dst)
